@@ -460,21 +460,3 @@ theorem dispatch_ok_direct (s : String) (o : Comp) (h : dispatch s o = .ok .dire
 
 end GB
 
-#print axioms GB.D_iterate_mul
-#print axioms GB.Pn_hasDerivAt
-#print axioms GB.iteratedDeriv_gauss
-#print axioms GB.hermite_eq
-#print axioms GB.axisGeneral_eq
-#print axioms GB.axisGeneral_eq_iteratedDeriv
-#print axioms GB.directFirst_eq
-#print axioms GB.directSecond_eq
-#print axioms GB.axisDirect_eq_spec
-#print axioms GB.axisDirect_eq
-#print axioms GB.axisDirect_three_ne_spec
-#print axioms GB.mem_defaultCart
-#print axioms GB.flags_truthful_of_full_shell
-#print axioms GB.dispatch_general
-#print axioms GB.dispatch_direct
-#print axioms GB.dispatch_direct_iff
-#print axioms GB.dispatch_other
-#print axioms GB.dispatch_ok_direct
